@@ -347,7 +347,11 @@ def fit_scipy(
         ndf = s.x.shape[0]
         min_nll = s.fun / grad_scale
         success = s.success
-        hess_inv = fcn.vm.trans_error_matrix(s.hess_inv * grad_scale, s.x)
+        # not every scipy method (e.g. CG) provides an inverse Hessian
+        if isinstance(getattr(s, "hess_inv", None), np.ndarray):
+            hess_inv = fcn.vm.trans_error_matrix(
+                s.hess_inv * grad_scale, s.x
+            )
         fcn.vm.remove_bound()
 
         xn = fcn.vm.get_all_val()
